@@ -3,6 +3,22 @@ use serde_json::{json, Value};
 
 use crate::ctx::Ctx;
 use crate::files::{self, LoadCase, Seed, ALL_EXTS};
+
+/// text formats and the emulation whose grammar their loader parses
+const GRAMMAR_EXTS: [(&str, &str); 12] = [
+    ("ans", "ansi"),
+    ("ans", "ansi"),
+    ("ice", "ansi"),
+    ("diz", "ansi"),
+    ("avt", "avatar"),
+    ("pcb", "pcboard"),
+    ("msg", "ctrla"),
+    ("an1", "renegade"),
+    ("seq", "petscii"),
+    ("ata", "atascii"),
+    ("asc", "ascii"),
+    ("nfo", "ansi"),
+];
 use crate::mon::{Budgets, Outcome, PanicKind};
 use crate::rng::{hash_bytes, hash_str, mix};
 use crate::shrink::shrink_list;
@@ -16,6 +32,7 @@ pub struct C02 {
     n_trunc: u64,
     n_flip: u64,
     n_cross: u64,
+    n_grammar: u64,
     flip_offsets: Vec<Vec<usize>>,
 }
 
@@ -104,6 +121,30 @@ impl C02 {
                     origin: format!("{} loaded as .{ext}", s.name),
                 },
                 "cross-extension",
+            );
+        }
+        let k4 = k3 - self.n_cross;
+        if k4 < self.n_grammar {
+            // a text-format file written in the grammar of its emulation: the loader runs the real parser on a
+            // file buffer (no terminal clamping), which the byte-level mutations of writer output rarely reach
+            let mut rng = ctx.rng(k);
+            let (ext, emu) = *rng.pick(&GRAMMAR_EXTS);
+            let (w, h) = (80, 25);
+            let mut bytes = if rng.chance(1, 2) { crate::gen_stream::state_prefix(&mut rng, emu, w, h) } else { Vec::new() };
+            let long = rng.chance(1, 5);
+            let n = 1 + rng.usize(if long { 400 } else { 40 });
+            bytes.extend(crate::gen_stream::token_stream(&mut rng, emu, w, h, n, false));
+            if rng.chance(1, 5) {
+                bytes.extend(files::sauce_tail(&mut rng));
+            }
+            return (
+                LoadCase {
+                    api: "buf".into(),
+                    ext: ext.into(),
+                    bytes,
+                    origin: format!("{emu} grammar stream as .{ext}"),
+                },
+                "grammar-stream-file",
             );
         }
         // random
@@ -259,7 +300,7 @@ impl Prop for C02 {
         "C02"
     }
     fn rule(&self) -> &'static str {
-        "seed corpus = output of every engine writer (14 formats, with/without SAUCE and comments, compressed/raw) on 6 generated documents incl. multi-layer/custom-font/large-palette IcyDraw, a feature ANSI file, PSF1/PSF2/raw fonts, the shipped TDF font, 5 palette formats, a bare SAUCE record. cases: (truncation) every prefix length of every seed (dense for small files and in header/tail regions, strided beyond); (byte-corruption) every byte of the first 160 and last 140 bytes x {0,1,0x7F,0x80,0xFF,+1,-1}; (cross-extension) every seed under 27 extensions incl. unknown and upper-case; (random) SAUCE tails from field extremes, structure-aware IcyDraw chunk mutation (decode zTXt, mutate payload, re-encode with valid CRC), LE field extremes, splices, inserts, deletes, repeats, pure random. Each case is one call of Buffer::from_bytes / SauceData::extract / BitFont::from_bytes / TheDrawFont::from_tdf_bytes / Palette::load_palette|import_palette under catch_unwind. distinct_nontrivial = distinct (api, extension, class, result, size, layers) fingerprints"
+        "seed corpus = output of every engine writer (14 formats, with/without SAUCE and comments, compressed/raw) on 6 generated documents incl. multi-layer/custom-font/large-palette IcyDraw, a feature ANSI file, PSF1/PSF2/raw fonts, the shipped TDF font, 5 palette formats, a bare SAUCE record. cases: (truncation) every prefix length of every seed (dense for small files and in header/tail regions, strided beyond); (byte-corruption) every byte of the first 160 and last 140 bytes x {0,1,0x7F,0x80,0xFF,+1,-1}; (cross-extension) every seed under 27 extensions incl. unknown and upper-case; (grammar) token streams in the grammar of the format's own emulation (ANSI incl. modes/margins/macros, Avatar, PCBoard, Ctrl-A, Renegade, PETSCII, ATASCII, ASCII) loaded as files, with and without state prefix and SAUCE tail; (random) SAUCE tails from field extremes, structure-aware IcyDraw chunk mutation (decode zTXt, mutate payload, re-encode with valid CRC), LE field extremes, splices, inserts, deletes, repeats, pure random. Each case is one call of Buffer::from_bytes / SauceData::extract / BitFont::from_bytes / TheDrawFont::from_tdf_bytes / Palette::load_palette|import_palette under catch_unwind. distinct_nontrivial = distinct (api, extension, class, result, size, layers) fingerprints"
     }
     fn meta(&self, _ctx: &Ctx) -> Value {
         json!({"floor_evaluations": 20000, "floor_distinct": 300, "plain_pass": "quick",
@@ -288,7 +329,8 @@ impl Prop for C02 {
         self.n_trunc = self.trunc_index.len() as u64;
         self.n_flip = self.flip_offsets.iter().map(|v| v.len() as u64).sum::<u64>() * 7;
         self.n_cross = (self.seeds.len() * ALL_EXTS.len()) as u64;
-        self.n_trunc + self.n_flip + self.n_cross + ctx.tier.pick(60_000, 3_000_000)
+        self.n_grammar = ctx.tier.pick(40_000, 1_000_000);
+        self.n_trunc + self.n_flip + self.n_cross + self.n_grammar + ctx.tier.pick(60_000, 3_000_000)
     }
     fn run_case(&mut self, ctx: &mut Ctx, k: u64) {
         let (case, class) = self.case_for(ctx, k);
